@@ -7,7 +7,10 @@ import (
 	"github.com/glebziz/fs_db/internal/model"
 )
 
+import "github.com/glebziz/fs_db/internal/verifhook"
+
 func (r *Repo) Store(_ context.Context, tx model.Transaction) error {
+	verifhook.At("txrepo.store.enter")
 	_, ok := r.storage.Load(tx.Id)
 	if ok {
 		return fs_db.ErrTxAlreadyExists
